@@ -275,12 +275,17 @@ func (route *ConsistentHashing) Add(dest *dest.Destination) {
 	route.addDestination(dest, consistentHashingConfigExtender)
 }
 
-func (route *baseRoute) delDestination(index int, extendConfig baseCfgExtender) error {
+// delDestination removes the destination with the given index,
+// unless that would leave the route with less than minDests destinations.
+func (route *baseRoute) delDestination(index, minDests int, extendConfig baseCfgExtender) error {
 	route.Lock()
 	defer route.Unlock()
 	conf := route.config.Load().(Config)
 	if index >= len(conf.Dests()) {
 		return fmt.Errorf("Invalid index %d", index)
+	}
+	if len(conf.Dests()) <= minDests {
+		return fmt.Errorf("route '%s' needs at least %d destination(s)", route.key, minDests)
 	}
 	toDelete := conf.Dests()[index]
 	// the full slice expression caps capacity so that append copies:
@@ -293,11 +298,12 @@ func (route *baseRoute) delDestination(index int, extendConfig baseCfgExtender) 
 }
 
 func (route *baseRoute) DelDestination(index int) error {
-	return route.delDestination(index, baseConfigExtender)
+	return route.delDestination(index, 0, baseConfigExtender)
 }
 
 func (route *ConsistentHashing) DelDestination(index int) error {
-	return route.delDestination(index, consistentHashingConfigExtender)
+	// Dispatch needs a non-empty hash ring
+	return route.delDestination(index, 1, consistentHashingConfigExtender)
 }
 
 func (route *baseRoute) GetDestination(index int) (*dest.Destination, error) {
